@@ -510,14 +510,54 @@ def run_popen(script, sizes, gaps_between=0.0, encoding=None, timeout=0.05, adve
     deferred = []
 
     def perform(act):
-        q0 = p._read_queue.qsize()
+        q0 = common.qlen(p)
         if act[0] == 'W':
             os.write(cw, b'W' + len(act[1]).to_bytes(4, 'big') + act[1]); os.read(ar, 1)
             st['written'] += act[1]
         elif not st['exited']:
             os.write(cw, b'E'); os.read(ar, 1); st['exited'] = True
         return q0
-    if adversarial:
+    def run_deferred():
+        while deferred:
+            act = deferred.pop(0)
+            q0 = perform(act)
+            t0 = time.time()
+            if act[0] == 'W':
+                while common.qlen(p) <= q0 and time.time() - t0 < 2:
+                    time.sleep(0.0005)
+            else:
+                p._read_thread.join(2)
+    if adversarial and not hasattr(p._read_queue, 'get_nowait'):
+        # another container than queue.Queue between the reader thread and read_nonblocking: the reader thread overtakes the consumer right
+        # before each of the consumer's mutating operations on it (clear / pop / popleft / remove ...), i.e. after whatever it looked at before
+        import threading as _th
+
+        class Overtaken(object):
+            def __init__(self, q):
+                object.__setattr__(self, '_q', q)
+
+            def __getattr__(self, name):
+                a = getattr(object.__getattribute__(self, '_q'), name)
+                if callable(a) and _th.current_thread() is _th.main_thread() and name in ('clear', 'pop', 'popleft', 'remove', 'get'):
+                    def w(*args, **kw):
+                        run_deferred()
+                        return a(*args, **kw)
+                    return w
+                return a
+
+            def __iter__(self):
+                return iter(object.__getattribute__(self, '_q'))
+
+            def __len__(self):
+                return len(object.__getattribute__(self, '_q'))
+
+            def __bool__(self):
+                return bool(object.__getattribute__(self, '_q'))
+
+            def __getitem__(self, k):
+                return object.__getattribute__(self, '_q')[k]
+        p._read_queue = Overtaken(p._read_queue)
+    elif adversarial:
         import queue as _q
         orig_get = p._read_queue.get_nowait
 
@@ -530,7 +570,7 @@ def run_popen(script, sizes, gaps_between=0.0, encoding=None, timeout=0.05, adve
                     q0 = perform(act)
                     t0 = time.time()
                     if act[0] == 'W':
-                        while p._read_queue.qsize() <= q0 and time.time() - t0 < 2:
+                        while common.qlen(p) <= q0 and time.time() - t0 < 2:
                             time.sleep(0.0005)
                     else:
                         p._read_thread.join(2)
